@@ -118,6 +118,10 @@ func Supervise(o SupOpts) int {
 					w.lastRun = n
 					w.lastSeen = time.Now()
 					w.mu.Unlock()
+				} else if line == "K" {
+					w.mu.Lock()
+					w.lastSeen = time.Now()
+					w.mu.Unlock()
 				}
 			}
 			err := w.cmd.Wait()
